@@ -52,13 +52,27 @@ KINDS = [
     lambda m: yaml.emitter.EmitterError(m), lambda m: AssertionError(m), lambda m: NotImplementedError(m),
 ]
 NK = len(KINDS)
+# StopIteration is only injected where no generator of the library's public API stands between the fault and the caller
+# (dump / dump_all / emit / serialize_all and their callbacks): inside load_all / scan / parse / compose_all the interpreter
+# itself rewrites it (PEP 479), which is not PyYAML's doing
+KIND_STOP = NK
+KINDS_ALL = KINDS + [lambda m: StopIteration(m)]
 
 
 def fresh_exc(i, kind=None):
+    if kind == KIND_STOP:
+        return KINDS_ALL[KIND_STOP]('injected %d' % i)
     return KINDS[(i if kind is None else kind) % NK]('injected %d' % i)
 
 
-def kinds_at(i, N, special=False):
+def kinds_at(i, N, special=False, dump_side=False):
+    ks = _kinds_at(i, N, special)
+    if dump_side and (special or i < 2 or i == N - 1 or i % 5 == 0):
+        ks = ks + [KIND_STOP]
+    return ks
+
+
+def _kinds_at(i, N, special=False):
     """Exception kinds injected at invocation index i of N: one by rotation everywhere; every kind at the
     first two and the last invocation and at 'special' invocations (flush calls)."""
     if special or i < 2 or i == N - 1:
@@ -227,7 +241,7 @@ def write_case(env, r, kind, dname, mk, label, opts, text, only=None):
     full = w0.written()
     ctx.stat('write_cases')
     ctx.statmax('max:write_invocations', N)
-    for i, ek in [(i, k) for i in (indices(N, r) if only is None else [only]) for k in kinds_at(i, N, w0.ops[i][0] == 'f')]:
+    for i, ek in [(i, k) for i in (indices(N, r) if only is None else [only]) for k in kinds_at(i, N, w0.ops[i][0] == 'f', dump_side=True)]:
         exc = fresh_exc(i, ek)
         st, e, w = run_write(kind, dname, mk(), opts, text, i, exc)
         raised = len(w.ops) > i and w.ops[i][0] == 'x'
@@ -361,7 +375,7 @@ def callback_cases(env, r, only=None):
         N = cb.n
         ctx.stat('callback_cases')
         ctx.statmax('max:callback_invocations', N)
-        for i, ek in [(i, k) for i in (range(N) if only is None else [only]) for k in kinds_at(i, N, i % 7 == 3)]:
+        for i, ek in [(i, k) for i in (range(N) if only is None else [only]) for k in kinds_at(i, N, i % 7 == 3, dump_side=label.startswith(('dump:', 'yobj:dump')))]:
             exc = fresh_exc(i, ek)
             ctx.stat('kind:' + type(exc).__name__)
             cb.n, cb.fail_at, cb.exc, cb.raised = 0, i, exc, False
